@@ -18,6 +18,7 @@ from .. import impl
 from ..refmodel import mgcycle
 
 FN = 'mc.checks.c05_cycling:case'
+FN_PREC = 'mc.checks.c05_cycling:case_prec'
 
 SCRIPTS = {
     'const': lambda i: 1.0,
@@ -325,6 +326,123 @@ def case(c):
             'count': {'levels_visited': nlev, 'cycles': ref['it']}}
 
 
+# ------------------------------------------- multigrid as a preconditioner
+def observe_prec(shape, cfg, ncalls, horizon=None):
+    """The real solve() in preconditioner mode: the SciPy Krylov routine is a
+    scripted stand-in that applies the preconditioner `ncalls` times (one
+    callback after each) and returns 'converged'.  Numerical leaves are
+    recorders; the fine-grid residual seen by _terminate decreases slowly, so
+    that every preconditioner call runs its full number of cycles."""
+    import emg3d
+    from emg3d import solver
+    grid = emg3d.TensorMesh([np.ones(n) for n in shape], (0, 0, 0))
+    model = emg3d.Model(grid, 1.0)
+    sfield = emg3d.Field(grid, frequency=1.0)
+    sfield.fx[shape[0]//2, 1, 1] = 1.0
+    rec = Rec()
+    rec.limit = horizon
+    calls = []
+
+    def krylov_standin(A, b, x0, M=None, callback=None, **kw):
+        x = np.array(x0)
+        for _ in range(ncalls):
+            rec.append(('CALL',))
+            M.matvec(b)
+            callback(x)
+        return x, 0
+
+    kw = {k: cfg[k] for k in ('cycle', 'semicoarsening', 'linerelaxation',
+                              'clevel', 'nu_init', 'nu_pre', 'nu_coarse',
+                              'nu_post')}
+    la = solver.sp.sparse.linalg
+    saved = {n: getattr(la, n) for n in ('bicgstab', 'cgs', 'gcrotmk')}
+    try:
+        for n in saved:
+            setattr(la, n, krylov_standin)
+        with stubs(SCRIPTS['slow'], rec, True):
+            _, info = emg3d.solve(model, sfield, sslsolver=cfg['sslsolver'],
+                                  verb=5, log=-1, return_info=True,
+                                  maxit=50, **kw)
+    finally:
+        for n, f in saved.items():
+            setattr(la, n, f)
+    return rec, info
+
+
+def case_prec(c):
+    """Preconditioner mode: over `ncalls` preconditioner applications the
+    k-th fine-grid cycle (counted over the whole solve) uses digit k of the
+    cycling patterns, every call runs max(len(patterns)) cycles of the
+    documented shape, and the hierarchy is well-formed."""
+    shape = tuple(c['shape'])
+    cfg = dict(DEFAULT)
+    cfg.update(c.get('cfg', {}))
+    ncalls = c['ncalls']
+    scp = mgcycle.pattern(cfg['semicoarsening'], (1, 2, 3), 3)
+    lrp = mgcycle.pattern(cfg['linerelaxation'], (4, 5, 6), 7)
+    m = max(len(scp), len(lrp))
+    rker, rtr = [], []
+    g = 0
+    per_call = []
+    for _ in range(ncalls):
+        k0, t0 = len(rker), len(rtr)
+        if cfg['nu_init'] > 0:
+            rker.extend(mgcycle.smoothing_calls(shape, lrp[g % len(lrp)],
+                                                cfg['nu_init']))
+        for _ in range(m):
+            ev, ker, tr, lv = mgcycle.cycle(
+                shape, cfg['cycle'], scp[g % len(scp)], lrp[g % len(lrp)],
+                cfg['clevel'], cfg['nu_pre'], cfg['nu_coarse'],
+                cfg['nu_post'])
+            rker.extend(ker)
+            rtr.extend([(t[0], t[1], t[2], t[3]) for t in tr])
+            g += 1
+        per_call.append((len(rker) - k0, len(rtr) - t0))
+    viol = []
+
+    def V(cls, what):
+        viol.append({'cls': cls, 'what': f'preconditioner mode, {ncalls} '
+                     f'calls: ' + what})
+    try:
+        rec, info = observe_prec(shape, cfg, ncalls,
+                                 10*(len(rker) + len(rtr)) + 200)
+    except (Horizon, RecursionError) as e:
+        V('recursion-does-not-terminate', f'{type(e).__name__}: {e}')
+        return {'viol': viol, 'compared': 1, 'nontrivial': True}
+    ncall = sum(1 for r in rec if r[0] == 'CALL')
+    ker = [(r[1], r[2], r[3]) for r in rec if r[0] == 'K']
+    tr = [tuple(r) for r in rec if r[0] in 'RP']
+    if info['it_mg'] != ncalls*m or ncall != ncalls:
+        V('preconditioner-cycle-count-differs',
+          f"{info['it_mg']} fine-grid cycles in {ncall} calls; reference "
+          f'{ncalls*m} ({m} per call)')
+    if ker != rker:
+        k = next((i for i, (a, b) in enumerate(zip(ker, rker)) if a != b),
+                 min(len(ker), len(rker)))
+        V('smoother-call-sequence-differs',
+          f'{len(ker)} kernel calls vs reference {len(rker)}; first '
+          f'difference at call {k}: {ker[k] if k < len(ker) else None} vs '
+          f'{rker[k] if k < len(rker) else None}')
+    if tr != rtr:
+        k = next((i for i, (a, b) in enumerate(zip(tr, rtr)) if a != b),
+                 min(len(tr), len(rtr)))
+        V('grid-hierarchy-or-visit-order-differs',
+          f'{len(tr)} transfers vs reference {len(rtr)}; first difference '
+          f'at {k}: {tr[k] if k < len(tr) else None} vs '
+          f'{rtr[k] if k < len(rtr) else None}')
+    for t in tr:
+        if min(t[2]) < 2:
+            V('level-with-fewer-than-two-cells', f'coarse shape {t[2]}')
+    if info['exit'] != 0:
+        V('termination-differs', f"exit {info['exit']} "
+          f"{info['exit_message']!r} although the Krylov routine reported "
+          'convergence')
+    return {'viol': viol, 'compared': 2 + len(tr),
+            'transitions': len(rker) + len(rtr), 'nontrivial': g > 1,
+            'outcome': (m, len(set(tr)), min(len(rker), 50)),
+            'count': {'preconditioner_calls': ncalls, 'cycles': g}}
+
+
 def prepare(ctx):
     impl.warm()
 
@@ -370,6 +488,32 @@ def run(ctx):
                          'linerelaxation, clevel, nu_*, maxit, residual '
                          'script); non-trivial = more than one level',
                     time_cap=cap or (600 if q else 1800), chunksize=64)
+    if ctx.wants('preconditioner'):
+        shp = list(itertools.product((2, 3, 4, 6, 8) if q else range(2, 10),
+                                     repeat=3))
+        shp += [(8, 2, 2), (2, 16, 4), (12, 16, 8), (16, 12, 8), (5, 8, 8)]
+        cs = []
+        for ss in (('bicgstab',) if q else ('bicgstab', 'cgs', 'gcrotmk')):
+            for cy in ('F', 'V', 'W'):
+                for sc in (False, True, 12, 1213, 2):
+                    for lr in (False, True, 147, 3):
+                        for extra in ({}, {'nu_init': 1}, {'clevel': 1}):
+                            if extra and (q or sc is not True):
+                                continue
+                            for sh in shp:
+                                cs.append({'shape': sh, 'ncalls': 4, 'cfg': {
+                                    'sslsolver': ss, 'cycle': cy,
+                                    'semicoarsening': sc,
+                                    'linerelaxation': lr, **extra}})
+        ctx.explore('preconditioner', FN_PREC, cs, engine='E1+E4',
+                    rule='multigrid as preconditioner: scripted Krylov '
+                         'routine applying the preconditioner 4 times; shapes '
+                         'x cycle x 5 semicoarsening x 4 line-relaxation '
+                         'patterns (x sslsolver name, nu_init, clevel in '
+                         'thorough); kernel and transfer sequences of ALL '
+                         'calls vs the reference with digits advancing once '
+                         'per fine-grid cycle across calls',
+                    time_cap=cap or (400 if q else 1800), chunksize=64)
     if ctx.wants('pairs'):
         shp = [(2, 2, 2), (3, 3, 3), (4, 4, 4), (5, 5, 5), (6, 6, 6),
                (8, 8, 8), (12, 12, 12), (16, 16, 16), (8, 2, 2), (2, 16, 4),
